@@ -50,7 +50,7 @@ Qed.
 Lemma istep_repr : forall auto S os o, repr (db S) os -> itrigger auto S o = false ->
   exists os', repr (db (fst (istep auto S o))) os'.
 Proof.
-  intros auto S os o Hr G. destruct o as [o|l id v|e id l|e id l|e id l].
+  intros auto S os o Hr G. destruct o as [o|l id v|e id l|e id l|e id l|id l a|id a v|id l|id l].
   - rewrite istep_old_db. eapply step_repr; eassumption.
   - cbn [istep]. destruct (sql_update l id v (db S)) as [x|s'] eqn:H; cbn [fst db].
     + exists os. exact Hr.
@@ -58,6 +58,17 @@ Proof.
   - cbn [istep]. rewrite on_inst_db. exists os. exact Hr.
   - cbn [istep]. rewrite on_inst_db. exists os. exact Hr.
   - cbn [istep]. rewrite on_inst_db. exists os. exact Hr.
+  - cbn [istep]. destruct (born_as (db S) id); [|exists os; exact Hr].
+    destruct (memc l (chain c) && memc a (chain l)); exists os; exact Hr.
+  - cbn [istep]. destruct (born_as (db S) id); [|exists os; exact Hr].
+    destruct (memc a (chain c)); [|exists os; exact Hr].
+    destruct (validate v) as [x|ov]; [exists os; exact Hr|].
+    destruct (sql_update a id ov (db S)) as [x|s'] eqn:H; cbn [fst db]; [exists os; exact Hr|].
+    destruct (sql_update_repr _ _ _ _ _ _ Hr H) as [Hr' _]. eexists. exact Hr'.
+  - cbn [istep]. destruct (born_as (db S) id); [|exists os; exact Hr].
+    destruct (memc l (chain c)); exists os; exact Hr.
+  - cbn [istep]. destruct (born_as (db S) id); [|exists os; exact Hr].
+    destruct (memc l (chain c)); exists os; exact Hr.
 Qed.
 
 Lemma irun_repr : forall auto ops S os, repr (db S) os -> iclean auto S ops = true ->
@@ -400,6 +411,37 @@ Proof.
   apply view_shows; assumption.
 Qed.
 
+(* ------------------------------------------------------------------ through the held object, nothing fetched *)
+(* sync() / expire() on the held object's instance of level l, then a read of ONE attribute of level a (own or inherited
+   by l) through the instance of any level l' that has it: the stored value -- whatever part of the chain was loaded,
+   expired or reloaded before (no guard: nothing is fetched, so no twin can be adopted) *)
+Theorem held_refresh : forall auto sync S id k l a l', born_as (db S) id = Some k ->
+  In l (chain k) -> In a (chain l) -> In l' (chain k) -> In a (chain l') ->
+  let S' := fst (istep auto S (hrefresh_op sync id l)) in
+  db S' = db S /\ snd (istep auto S' (HRead id l' a)) = RObj (mkobj id a [val_of (db S) a id]).
+Proof.
+  intros auto sync S id k l a l' Hb Hl Ha Hl' Ha' S'.
+  apply memc_In in Hl. apply memc_In in Hl'. apply memc_In in Ha'.
+  assert (HS : S' = mkist (db S) (refresh_at sync (db S) (im S) l id)).
+  { unfold S'. destruct sync; cbn [hrefresh_op istep refresh_at]; rewrite Hb, Hl; reflexivity. }
+  split; [rewrite HS; reflexivity|].
+  rewrite HS. cbn [istep db im]. rewrite Hb, Hl', Ha'. cbn [andb snd]. do 3 f_equal.
+  unfold shown. rewrite iupd_same, cls_eqb_refl. cbn [ci].
+  apply memc_In in Ha. destruct sync; cbn [refresh_at].
+  - unfold sync_up. rewrite sync_list_spec, Ha. reflexivity.
+  - unfold expire_up. rewrite expire_list_spec, Ha. destruct (ci (im S a id)) eqn:C; [reflexivity|rewrite C; reflexivity].
+Qed.
+
+(* the scenario of a partially reloaded chain: expire the held leaf, read only the root's attribute (the root's instance
+   reloads, the leaf stays expired), UPDATE behind the ORM, expire again, read *)
+Definition w_partial : list iop :=
+  [Old (Create KC (mkargs (Int 1) (Int 1) (Int 1) Omit) false); HExpire 1 KC; HRead 1 KC KA; RawSet KA 1 (Some 5)].
+Lemma w_partial_ok :
+  snd (istep true (irun true iinit w_partial) (HRead 1 KC KA)) = RObj (mkobj 1 KA [Some 1]) /\
+  snd (istep true (fst (istep true (irun true iinit w_partial) (HExpire 1 KC))) (HRead 1 KB KA)) = RObj (mkobj 1 KA [Some 5]) /\
+  born_as (db (irun true iinit w_partial)) 1 = Some KC.
+Proof. vm_compute. repeat split. Qed.
+
 Theorem inst_extends_old : forall auto ops,
   db (irun auto iinit (map Old ops)) = run auto init ops /\ iclean auto iinit (map Old ops) = clean auto init ops.
 Proof. intros. split; [apply irun_old|apply iclean_old]. Qed.
@@ -413,6 +455,18 @@ Definition w_skip : list iop := [c111; RawSet KA 1 (Some 5)].
 Lemma w_skip_now : forall sync,
   snd (istep true (fst (istep true (irun true iinit w_skip) (refresh_op sync KC 1 KC))) (Old (Get KC 1))) = RObj (mkobj 1 KC [Some 5; Some 1; Some 1]).
 Proof. intro sync. destruct sync; vm_compute; reflexivity. Qed.
+
+(* no write behind the ORM at all: b = c._parent; b.expire(); HB.get(1) (a twin of b enters the identity map, b stays
+   expired); c.y = 17, not read back; c.expire() -- b is expired already, the twin stays; the new leaf adopts it *)
+Definition w_twin : list iop :=
+  [c111; HExpire 1 KB; SyncUpdate KB 1 KC; HSet 1 KB (Int 17); HExpire 1 KC].
+Theorem twin_refuted : exists ops,
+  forallb no_raw ops = true /\ iclean true iinit ops = true /\
+  let S := irun true iinit ops in
+  In (1, KC) (born (db S)) /\
+  snd (istep true S (Old (Get KC 1))) = RObj (mkobj 1 KC [Some 1; Some 1; Some 1]) /\
+  stored (db S) KC 1 = [Some 1; Some 17; Some 1].
+Proof. exists w_twin. vm_compute. repeat split. left. reflexivity. Qed.
 
 (* expire() of the leaf (hence of every level) does not refresh when a twin sits in the identity map: the expire() of an
    instance that is expired already leaves the identity map alone *)
